@@ -265,7 +265,7 @@ func c15Populate(w *core.World, id string) []core.Result {
 		out = append(out, core.Bad(id, "PROV", "PROV:"+pop+":labels", w.Pos(fn.Pos()), "labels are no longer lo.Assign(provider labels, NodeClaim labels): provider labels could override the scheduler's and make a fresh NodeClaim requirement-drifted"))
 	}
 	for _, f := range []string{"ProviderID", "ImageID", "Allocatable", "Capacity"} {
-		if len(w.Sites(fn, regexp.MustCompile(`^store \$0\.Status\.`+f+` = \$1\.Status\.`+f+`$`), false)) == 0 {
+		if len(w.SitesOr(fn, regexp.MustCompile(`^store \$0\.Status\.`+f+` = \$1\.Status\.`+f+`$`), false, 1)) == 0 {
 			out = append(out, core.Bad(id, "PROV", "PROV:"+pop+":"+f, w.Pos(fn.Pos()), "Status."+f+" is no longer taken from the instance the provider created"))
 		}
 	}
